@@ -34,7 +34,7 @@ func runC16(c *Ctx) {
 	for _, nme := range []string{"alignAgainstRefsAA", "alignAgainstRefsNT"} {
 		nb += c.checkBestRecordReplaced("best-record-replaced", c.fn("align", "*phaser", nme))
 	}
-	L.Floor("best-record-replaced", 8, "fields of the best record in the two search loops")
+	L.Floor("best-record-replaced", 4, "fields of the best record in the two search loops (floor = half of the instances on the pinned tree: a clean-up may merge instances, a rule that sees nothing must still fail)")
 	L.Floor("lockset", 1, "err (workers' result variables are closure-local)")
 
 	c.checkOneSendPerItem(ph, "one-send-per-item", func(mk *ssa.MakeChan) bool {
@@ -74,7 +74,7 @@ func runC16(c *Ctx) {
 			}
 		}
 	}
-	L.Floor("rng-in-goroutine", 3, "Phase workers, closer, SequencesChan producer")
+	L.Floor("rng-in-goroutine", 1, "Phase workers, closer, SequencesChan producer (floor = half of the instances on the pinned tree: a clean-up may merge instances, a rule that sees nothing must still fail)")
 
 	c.checkPhaseCoordinatesAA()
 	c.checkPhaseCoordinatesNT()
@@ -305,7 +305,7 @@ func (c *Ctx) checkPhaseCoordinatesAA() {
 			L.Check(nt != nil && st.Val == nt.Low, "frame-arith", r.label, "Position = NtSeq start", c.P.Pos(st.Pos()), "reported position is the cut start", "reported position differs from the position the nucleotides were cut at")
 		}
 	})
-	L.Floor("frame-arith", 8, "NtSeq/CodonSeq/AaSeq bounds + consistency + Position")
+	L.Floor("frame-arith", 4, "NtSeq/CodonSeq/AaSeq bounds + consistency + Position (floor = half of the instances on the pinned tree: a clean-up may merge instances, a rule that sees nothing must still fail)")
 }
 
 func isLenLike(v ssa.Value) bool {
